@@ -224,7 +224,7 @@ static bool nparty_once(std::vector<std::pair<std::string, std::string> > &pendi
 				if (mpz_sgn(pl) == 0) return 0;
 				if (d.answer == 1 || d.answer == 2) { std::set<size_t> vs(d.wrong); vs.insert(d.drop.begin(), d.drop.end());
 					for (size_t v : vs) if (mpz_cmp(pl, rv->alpha_ij[i][v]) == 0) { if (d.answer == 2) return 2; mpz_add_ui(rep, pl, 1); mpz_mod(rep, rep, q); return 1; } }
-				if (d.opening && mpz_cmp(pl, rv->a_i) == 0) { if (d.opening == 2) return 2; mpz_add_ui(rep, pl, 1); mpz_mod(rep, rep, q); return 1; }
+				if (d.opening && mpz_cmp(pl, rv->a_i) == 0) { if (d.opening == 2) return 2; if (d.opening == 4) { mpz_add(rep, pl, q); return 1; } mpz_add_ui(rep, pl, 1); mpz_mod(rep, rep, q); return 1; }
 				return 0; };
 		}
 		try { ok = edcf.Flip(i, a, aiou, rbc, err, lib_faulty[i]); } catch (std::exception &e) { exc = e.what(); }
@@ -233,11 +233,21 @@ static bool nparty_once(std::vector<std::pair<std::string, std::string> > &pendi
 		res << "qual="; for (size_t k = 0; k < edcf.rvss->Qual.size(); k++) res << (k ? "," : "") << edcf.rvss->Qual[k]; res << "\n";
 		res << "C="; for (size_t j = 0; j < n; j++) res << (j ? "," : "") << hx(edcf.rvss->C_ik[j][0]); res << "\n";
 		// the party's private shares of every dealer and its view of all commitments
+		{ // Flip step 3 as logged: complaints in the order they were raised, and the list after de-duplication
+		  const std::string L = err.str(); std::string raw, fin; size_t pos = 0;
+		  static const char *keys[] = { "receiving a_i failed; complaint against P_", "bad a_i received; complaint against P_", "receiving hata_i failed; complaint against P_",
+			"bad hata_i received; complaint against P_", "checking a_i resp. hata_i failed; complaint against P_" };
+		  for (;;) { size_t best = std::string::npos, bl = 0; for (const char *k : keys) { size_t p2 = L.find(k, pos); if (p2 < best) { best = p2; bl = strlen(k); } }
+			if (best == std::string::npos) break; raw += (raw.empty() ? "" : ",") + hx((unsigned long)strtoul(L.c_str() + best + bl, 0, 10)); pos = best + bl; }
+		  size_t pf = L.rfind(": there are complaints against ");
+		  if (pf != std::string::npos) { size_t e = L.find('\n', pf); std::istringstream is(L.substr(pf + 31, e == std::string::npos ? std::string::npos : e - pf - 31)); std::string tk;
+			while (is >> tk) if (tk.compare(0, 2, "P_") == 0) fin += (fin.empty() ? "" : ",") + hx((unsigned long)strtoul(tk.c_str() + 2, 0, 10)); }
+		  res << "rawc=" << (raw.empty() ? "_" : raw) << "\n" << "finc=" << (pf == std::string::npos ? "?" : (fin.empty() ? "_" : fin)) << "\n"; }
 		for (size_t k = 0; k < n; k++) res << "deal" << k << "=" << hx(edcf.rvss->alpha_ij[i][k]) << "," << hx(edcf.rvss->hatalpha_ij[i][k]) << "\n";     // the shares this party dealt
 		for (size_t j = 0; j < n; j++) { res << "sh" << j << "=" << hx(edcf.rvss->alpha_ij[j][i]) << "," << hx(edcf.rvss->hatalpha_ij[j][i]) << "\n";
 			res << "cm" << j << "="; for (size_t k = 0; k <= t; k++) res << (k ? "," : "") << hx(edcf.rvss->C_ik[j][k]); res << "\n"; }
 		{ std::string l = err.str(); if (l.size() > 1500 && !getenv("VERIF_DEBUG")) l = l.substr(l.size() - 1500); std::replace(l.begin(), l.end(), '\n', '~'); res << "log=" << l << "\n"; }
-	}, devs.empty() ? 0 : &devs, G.q, silence ? aiounicast::aio_timeout_very_short : 0);
+	}, devs.empty() ? 0 : &devs, G.q, silence ? aiounicast::aio_timeout_very_short : 0, &faulty);
 	std::string fs; for (size_t i = 0; i < n; i++) fs += faulty[i] ? '1' : '0';
 	for (auto &d : devs) fs += " deviation of P" + std::to_string(d.first) + ": " + d.second.str();
 	std::string ctx = "n=" + std::to_string(n) + " t=" + std::to_string(t) + " faulty=" + fs + " seed=" + std::to_string(seed) + " p=" + hx(G.p) + " q=" + hx(G.q) + " g=" + hx(G.g) + " h=" + hx(G.h);
@@ -255,6 +265,9 @@ static bool nparty_once(std::vector<std::pair<std::string, std::string> > &pendi
 		for (auto &f : fails) verif::propfail(f.first, f.second);
 		return true; };
 	if (FR.timed_out) { propfail("nparty-timeout", "n-party Flip did not finish within the wall-clock limit: " + ctx); return finish(); }
+	// Flip step 3: the complaint list of every honest party as logged -> model complaint_set
+	for (size_t i = 0; i < n; i++) if (!faulty[i]) { std::string rw = res_get(FR.text[i], "rawc"), fn = res_get(FR.text[i], "finc");
+		if (!rw.empty() && !fn.empty() && fn != "?") recs.push_back("REC flip_complaints " + rw + " " + fn + "\n"); }
 	// all honest parties: success, the same Qual, the same coin
 	std::string qual, coin; bool first = true;
 	for (size_t i = 0; i < n; i++) if (!faulty[i]) {
@@ -314,7 +327,8 @@ static bool nparty_once(std::vector<std::pair<std::string, std::string> > &pendi
 	}
 	// decision record per honest party: what every member of Qual broadcast (known from that member's own process), the commitment
 	// as stored by this party, the committed share as reconstruction result -> coin
-	if (known && devs.empty()) for (size_t i = 0; i < n; i++) if (!faulty[i]) {
+	bool all_reported = true; for (auto &js : Q) if (!js.empty() && res_get(FR.text[strtoul(js.c_str(), 0, 10)], "hata").empty()) all_reported = false;
+	if (known && devs.empty() && all_reported) for (size_t i = 0; i < n; i++) if (!faulty[i]) {
 		std::vector<std::string> Cs = split(res_get(FR.text[i], "C"), ',');
 		std::string members;
 		for (auto &js : Q) { if (js.empty()) continue; size_t j = strtoul(js.c_str(), 0, 10);
@@ -333,6 +347,7 @@ static bool nparty_once(std::vector<std::pair<std::string, std::string> > &pendi
 			mpz_t a, b; mpz_init(a); mpz_init(b); mpz_set_str(a, res_get(FR.text[j], "a").c_str(), 16); mpz_set_str(b, res_get(FR.text[j], "hata").c_str(), 16);
 			if (lib_faulty[j]) { mpz_add_ui(a, a, 1); if (fr[j]) mpz_add_ui(b, b, 1); }
 			if (devs.count(j) && devs.at(j).opening == 1) { mpz_add_ui(a, a, 1); mpz_mod(a, a, G.q); }
+			if (devs.count(j) && devs.at(j).opening == 4) mpz_add(a, a, G.q);
 			std::string r = hx(a) + "|" + hx(b); mpz_clear(a); mpz_clear(b); return r; };
 		for (size_t i = 0; i < n; i++) if (!faulty[i]) {
 			std::string members; bool okv = true;
@@ -341,7 +356,7 @@ static bool nparty_once(std::vector<std::pair<std::string, std::string> > &pendi
 				for (auto &ks : Q) { if (ks.empty()) continue; size_t k = strtoul(ks.c_str(), 0, 10); if (k == i) continue;
 					std::vector<std::string> sk = split(res_get(FR.text[k], "sh" + std::to_string(j)), ','); if (sk.size() != 2) { okv = false; break; }
 					shs += (shs.empty() ? "" : ",") + hx((unsigned long)k) + ":" + sk[0] + ":" + sk[1]; }
-				if (cm.empty() || own.empty()) okv = false;
+				if (cm.empty() || own.empty() || res_get(FR.text[j], "a").empty() || res_get(FR.text[j], "hata").empty()) okv = false;   // (a deviator that had not reported when the run ended)
 				members += (members.empty() ? "" : ";") + hx((unsigned long)j) + "|" + cm + "|" + opening_of(j) + "|" + own + "|" + (shs.empty() ? "_" : shs); }
 			if (okv && !members.empty()) recs.push_back("REC flipN_view " + hx(G.p) + " " + hx(G.q) + " " + hx(G.g) + " " + hx(G.h) + " " + hx((unsigned long)t) + " " + hx((unsigned long)i) + " " + members + " coin:" + res_get(FR.text[i], "coin") + "\n");
 		}
@@ -495,7 +510,8 @@ int main(int argc, char **argv) {
 		Grp G; G.generate(32, 64);
 		// bad = parties using the library's fault switch; dev >= 0: party `dev` deviates as scripted (wrong/no private share to `victims`,
 		// answer to their complaints 0 correct / 1 incorrect / 2 none, opening 0 correct / 1 mismatching / 2 none)
-		struct Cfg { size_t n, t; std::vector<size_t> bad; long dev; std::vector<size_t> victims; bool drop; int answer, opening; };
+		// dev2 >= 0: a second scripted deviator that only misbehaves in the opening phase (opening2)
+		struct Cfg { size_t n, t; std::vector<size_t> bad; long dev; std::vector<size_t> victims; bool drop; int answer, opening; long dev2 = -1; int opening2 = 0; };
 		std::vector<Cfg> cfgs;
 		auto subset = [&](size_t n, size_t k, size_t excl) { std::vector<size_t> v; while (v.size() < k) { size_t c = gen().below(n); if (c != excl && std::find(v.begin(), v.end(), c) == v.end()) v.push_back(c); } return v; };
 		if (!T) {
@@ -503,13 +519,19 @@ int main(int argc, char **argv) {
 			cfgs = { {2, 0, {}, -1, {}, false, 0, 0}, {3, 1, {}, -1, {}, false, 0, 0}, {3, 1, {(size_t)gen().below(3)}, -1, {}, false, 0, 0}, {5, 2, {1, 3}, -1, {}, false, 0, 0},
 				{4, 1, {}, (long)d4, subset(4, 1, d4), false, 0, 1},        // wrong share to one victim, correct answer, mismatching opening -> reconstruction
 				{5, 2, {}, (long)d5, subset(5, 2, d5), false, 1, 0},        // wrong share to two victims, incorrect answer -> disqualified
-				{4, 1, {}, (long)d4, subset(4, 1, d4), false, 3, 1} };      // wrong share to one victim, complaint ignored, mismatching opening (known finding)
+				{4, 1, {}, (long)d4, subset(4, 1, d4), false, 3, 1},        // wrong share to one victim, complaint ignored, mismatching opening (known finding)
+				{7, 2, {}, 2, {}, false, 0, 1, 5, 4} };                     // two deviators in the opening phase: P_2 wrong in range, P_5 out of range
 		} else {
 			for (size_t n = 2; n <= 7; n++) { size_t t = (n - 1) / 2;
 				cfgs.push_back({n, t, {}, -1, {}, false, 0, 0});
 				for (size_t k = 1; k <= t; k++) for (int rep = 0; rep < 2; rep++) {
 					std::vector<size_t> bad; while (bad.size() < k) { size_t c = gen().below(n); if (std::find(bad.begin(), bad.end(), c) == bad.end()) bad.push_back(c); }
 					cfgs.push_back({n, t, bad, -1, {}, false, 0, 0}); } }
+			// two simultaneous deviators in the opening phase, n = 7, t = 2: {wrong in range, out of range, withheld} x {.. } x index order
+			{ const int kinds[3] = {1, 4, 2};
+			  for (int ka = 0; ka < 3; ka++) for (int kb = 0; kb < 3; kb++) { if (kinds[ka] == 2 && kinds[kb] == 2) continue;
+				size_t lo = gen().below(3), hi = 3 + gen().below(4);
+				Cfg c = {7, 2, {}, (long)lo, {}, false, 0, kinds[ka]}; c.dev2 = (long)hi; c.opening2 = kinds[kb]; cfgs.push_back(c); } }
 			for (size_t n = 4; n <= 7; n++) { size_t t = (n - 1) / 2;
 				for (size_t k = 1; k <= t; k++) {
 					size_t d = gen().below(n);
@@ -531,6 +553,7 @@ int main(int argc, char **argv) {
 			std::vector<bool> f(c.n, false); for (size_t b : c.bad) f[b] = true;
 			Devs devs;
 			if (c.dev >= 0) { Deviation d; for (size_t v : c.victims) { if (c.drop) d.drop.insert(v); else d.wrong.insert(v); } d.answer = c.answer; d.opening = c.opening; if (d.active()) devs[(size_t)c.dev] = d; }
+			if (c.dev2 >= 0) { Deviation d; d.opening = c.opening2; if (d.active()) devs[(size_t)c.dev2] = d; }
 			uint64_t sd = gen().next() % 1000000;
 			if (ci % parts == part) nparty(G, c.n, c.t, f, sd, devs); }
 	}
